@@ -60,7 +60,10 @@ def main():
             for e in errs[:3]:
                 print(e)
             print("HARNESS-ERROR %s: %d units failed to compile against the current tree" % (pid, len(errs)))
-            return 2
+            if len(ids) == 1:
+                return 2
+            rc_all = rc_all if rc_all == 1 else 2
+            continue
         if a.build_only:
             continue
         recs, errors = vlib.run_all(units, a.tier, a.seed)
